@@ -399,6 +399,7 @@ BOUNDARY_EXPECT = [
     "B10.1 cap0_below_max=2 within_ok=1 len={max} cap={max} failed_at=-1 extra=panic:CapacityOverflow",
     "B10.2 cap0_below_max=7 within_ok=1 len={max} cap={max} failed_at=-1 extra=panic:CapacityOverflow",
     "B10.3 cap0_below_max={quarter} within_ok=1 len={max} cap={max} failed_at=-1 extra=panic:CapacityOverflow",
+    "B11 alloc=0",
 ]
 BOUNDARY_WHAT = {
     "B1": "with_capacity beyond 2^24 must panic", "B2": "with_capacity(n) permits exactly n create_within_capacity without reallocation",
@@ -411,6 +412,7 @@ BOUNDARY_WHAT = {
     "B10.1": "from an initial capacity of 2^24 - 2, create succeeds until 16,777,216 entities exist and only then panics",
     "B10.2": "from an initial capacity of 2^24 - 7, create succeeds until 16,777,216 entities exist and only then panics",
     "B10.3": "from an initial capacity of 3*2^22 + 1, create succeeds until 16,777,216 entities exist and only then panics",
+    "B11": "after the whole boundary run (every world dropped, whatever panicked on the way) no array was resized or released with a layout that is not its own (layout-checking allocator of harness/alloc_check)",
 }
 
 
@@ -444,6 +446,10 @@ def run_boundary(cfgname):
                     res["oracle_hits"].append({"property": "C12", "seq": "boundary", "line": 0, "op": "rt boundary", "class": "boundary-" + tag,
                                                "what": f"{BOUNDARY_WHAT[tag]}: expected `{e}`, but the process running the real code died there (exit {p.returncode}: {p.stderr[-200:].strip()})", "no_shrink": True})
                     break
+                if g != e and not res.get("crashed") and tag == "B11":
+                    # memory safety after the panics of this run: charged to C10 as well
+                    res["oracle_hits"].append({"property": "C10", "seq": "boundary", "line": 0, "op": "rt boundary", "class": "boundary-B11",
+                                               "what": f"{BOUNDARY_WHAT[tag]}: expected `{e}`, observed `{g}`; lines of the run: {[x for x in got if 'panic' in x][:4]}", "no_shrink": True})
                 if g != e and not res.get("crashed"):
                     res["oracle_hits"].append({"property": "C08" if (tag in ("B5", "B8") and g and "dup_of_first=1" in g) else "C12", "seq": "boundary", "line": 0, "op": "rt boundary", "class": "boundary-" + tag,
                                                "what": f"{BOUNDARY_WHAT[tag]}: expected `{e}`, observed `{g}`", "no_shrink": True})
@@ -483,6 +489,10 @@ def run_shapes(cfgname):
             if not res.get("crashed") and not (f1 and f1.startswith("F1 accepted=0 ") and "data_intact=1" in f1):
                 res["oracle_hits"].append({"property": "C03", "seq": "shapes", "line": 0, "op": "rt shapes", "class": "shapes-F1", "no_shrink": True,
                                            "what": f"in a world with ONE archetype, keys whose archetype byte is not that archetype's (EntityAny::from_raw over the 255 other values; handles and direct handles of a world of another type with equal position and generation) must be rejected or panic cleanly on every dynamically typed path, ecs_find! / ecs_find_borrow! included, and leave the data untouched (harness/rt/src/shapes.rs one::run); observed `{f1}`"})
+            r1 = next((x for x in got if x.startswith("R1 ")), None)
+            if not res.get("crashed") and r1 != "R1 attempts=32 aliasing_granted=0 [] refused_wrongly=0 [] clones_ok=2/2":
+                res["oracle_hits"].append({"property": "C11", "seq": "shapes", "line": 0, "op": "rt shapes", "class": "shapes-R1", "no_shrink": True,
+                                           "what": f"a component whose Clone::clone re-enters its own world while World::clone / Archetype::clone is reading the columns: exclusive runtime borrows of columns of the archetype being cloned (borrow_slice_mut, component_mut, ecs_find_borrow! / ecs_iter_borrow! with &mut) must panic instead of being granted, shared ones and accesses to another archetype must succeed, and the clones complete (harness/rt/src/shapes.rs reent); observed `{r1}`"})
             d1 = next((x for x in got if x.startswith("D1 ")), None)
             if not res.get("crashed") and d1 != "D1 is_destroy=0011 default=Continue from_unit=Continue from_continue=Continue from_break=Break step_default=Continue step_from_unit=Continue":
                 res["oracle_hits"].append({"property": "C07", "seq": "shapes", "line": 0, "op": "rt shapes", "class": "shapes-D1", "no_shrink": True,
@@ -1000,12 +1010,12 @@ def check_rt(prop, tier, seed):
     for c in cfgs:
         for pr in profiles:
             streams.append(run_stream(c, pr, seed, t["nseq"], t["maxops"]))
-    if prop in ("C12", "C08"):
+    if prop in ("C12", "C08", "C10"):
         streams.append(run_boundary("rel-ew3"))
     if prop in ("C10", "C17"):
         # the generation-overflow panic with event logs on (events without wrapping_version)
         streams.append(run_stream("dbg-e", "overflow", seed, t["nseq"], t["maxops"]))
-    if prop in ("C03", "C04", "C10", "C07"):
+    if prop in ("C03", "C04", "C10", "C07", "C11"):
         for c in QUICK_CONFIGS:
             streams.append(run_shapes(c))
     if prop == "C17":
